@@ -28,7 +28,14 @@ Definition pc_noid (p : cpc) : bool := match p with PCheck _ | PParked => true |
 
 Definition was_reg (k : call) : bool := k_reg k || cclosed (k_chan k).
 
+(* the header latch (cs.ready, a WaitGroup: a second Done() panics) *)
+Definition loop_runs (l : slpc) : bool := match l with LRead | LHand _ => true | _ => false end.
+Definition latch_noerr (x : option (mdv + cerr)) : bool := match x with Some (inr _) => false | _ => true end.
+Definition latch_none (x : option (mdv + cerr)) : bool := match x with None => true | _ => false end.
+
 Record kinv (k : call) : Prop := mkKinv {
+  ki_latch_run : loop_runs (s_loop k) = true -> latch_noerr (s_latch k) = true;
+  ki_latch_fresh : pc_fresh (k_pc k) = true -> latch_none (s_latch k) = true;
   ki_reg_pc : k_reg k = true -> pc_holds_reg (k_pc k) = true;
   ki_reg_open : k_reg k = true -> k_pc k = POpen -> loop_alive k = true;
   ki_loop_open : loop_alive k = true -> k_pc k = POpen;
@@ -53,6 +60,8 @@ Record kinv (k : call) : Prop := mkKinv {
 Ltac kinv_solve :=
   constructor; csimpl; unfold ops_pending, recv_pending, header_pending, send_pending, trailer_pending, loop_alive in *; csimpl;
   intros;
+  unfold loop_runs, latch_noerr, latch_none in *;
+  repeat match goal with x : option (mdv + cerr) |- _ => destruct x as [[?|?]|] end;
   try match goal with |- context [match ?x with Some _ => _ | None => _ end] => is_var x; destruct x end;
   repeat match goal with
          | H : ?a = ?a -> _ |- _ => specialize (H eq_refl)
